@@ -1334,9 +1334,16 @@ class DocTest:
                             new_line = ','.join(tbparts)
 
                             # failed_ctx = '>>> ' + self.failed_part.exec_lines[tb_lineno - 1]
-                            failed_ctx = self.failed_part.orig_lines[tb_lineno - 1]
-                            extra = '    ' + failed_ctx
-                            line = (new_line + extra + '\n')
+                            orig_lines = self.failed_part.orig_lines
+                            if 0 < tb_lineno <= len(orig_lines):
+                                failed_ctx = orig_lines[tb_lineno - 1]
+                                extra = '    ' + failed_ctx
+                                line = (new_line + extra + '\n')
+                            else:
+                                # The frame belongs to code compiled from
+                                # another part of this doctest (e.g. a helper
+                                # defined earlier), its text is not available.
+                                line = new_line
 
                         # m = '(t{})'.format(i)
                         # line = m + line.replace('\n', '\n' + m)
